@@ -20,6 +20,7 @@ const pop3Rel = "pkg/server/pop3"
 type pop3Model struct {
 	c                                  *Ctx
 	fState, fMessages, fRetain, fCount *types.Var
+	fHolder                            *types.Var // Session field holding the snapshot record, if the snapshot is a record of its own
 	fStore                             *types.Var
 	states                             map[string]int64
 	stateName                          map[int64]string
@@ -40,9 +41,19 @@ func (c *Ctx) pop3() *pop3Model {
 	p := c.P
 	m := &pop3Model{c: c, states: map[string]int64{}, stateName: map[int64]string{}, events: map[string][]tsEvent{}}
 	m.fState = p.Field(pop3Rel, "Session", "state")
-	m.fMessages = p.Field(pop3Rel, "Session", "messages")
-	m.fRetain = p.Field(pop3Rel, "Session", "retain")
-	m.fCount = p.Field(pop3Rel, "Session", "msgCount")
+	// the snapshot fields are found by what they hold — the []storage.Message, the []bool marks
+	// and the int count — in Session itself or in a record Session holds (s.drop.messages); by
+	// name only when the types do not single them out
+	m.fMessages, m.fRetain, m.fCount, m.fHolder = snapshotFields(p)
+	if m.fMessages == nil {
+		m.fMessages = p.Field(pop3Rel, "Session", "messages")
+	}
+	if m.fRetain == nil {
+		m.fRetain = p.Field(pop3Rel, "Session", "retain")
+	}
+	if m.fCount == nil {
+		m.fCount = p.Field(pop3Rel, "Session", "msgCount")
+	}
 	m.fStore = p.Field(pop3Rel, "Server", "store")
 	st := p.Named(pop3Rel, "State")
 	m.rmObj = p.MethodObj("pkg/storage", "Store", "RemoveMessage")
@@ -81,6 +92,8 @@ func (c *Ctx) pop3() *pop3Model {
 						w = true
 					case eng.SameField(f, m.fMessages) && !fresh:
 						l = true
+					case m.fHolder != nil && eng.SameField(f, m.fHolder) && !fresh:
+						l = true // the whole snapshot record is replaced (s.drop = newMaildrop(msgs))
 					case eng.SameField(f, m.fRetain) && !fresh:
 						rs = true
 					}
@@ -209,7 +222,7 @@ func (m *pop3Model) Step(in ssa.Instruction, c eng.TSConfig) []eng.TSConfig {
 	case *ssa.Store:
 		if fa, ok := x.Addr.(*ssa.FieldAddr); ok {
 			f := eng.FieldOfAddr(fa)
-			if eng.SameField(f, m.fMessages) {
+			if eng.SameField(f, m.fMessages) || (m.fHolder != nil && eng.SameField(f, m.fHolder)) {
 				if _, fresh := fa.X.(*ssa.Alloc); !fresh {
 					m.ev("load-mailbox", in, c)
 					c.B = 1
@@ -1797,4 +1810,79 @@ func (c *Ctx) c13SameMailbox(m *pop3Model) {
 		})
 	}
 	r.Floor(rule, "writers of the session's mailbox field", nW, 1)
+}
+
+// snapshotFields finds the POP3 session's snapshot by type: the one []storage.Message field, the
+// one []bool field next to it and the one int field next to them that is assigned a len() of
+// the messages somewhere in the package, in Session or in a struct type of the package that
+// Session holds by value or by pointer.
+func snapshotFields(p *eng.Prog) (msgs, retain, count, holder *types.Var) {
+	sess := p.Named(pop3Rel, "Session")
+	if sess == nil {
+		return
+	}
+	st, ok := sess.Underlying().(*types.Struct)
+	if !ok {
+		return
+	}
+	isMsgSlice := func(t types.Type) bool {
+		sl, ok := t.Underlying().(*types.Slice)
+		if !ok {
+			return false
+		}
+		n, ok := sl.Elem().(*types.Named)
+		return ok && n.Obj().Name() == "Message" && n.Obj().Pkg() != nil && strings.HasSuffix(n.Obj().Pkg().Path(), "/pkg/storage")
+	}
+	isBoolSlice := func(t types.Type) bool {
+		sl, ok := t.Underlying().(*types.Slice)
+		if !ok {
+			return false
+		}
+		b, ok := sl.Elem().Underlying().(*types.Basic)
+		return ok && b.Kind() == types.Bool
+	}
+	structs := []*types.Struct{st}
+	holders := []*types.Var{nil}
+	for i := 0; i < st.NumFields(); i++ {
+		t := st.Field(i).Type()
+		if pt, ok := t.(*types.Pointer); ok {
+			t = pt.Elem()
+		}
+		if n, ok := t.(*types.Named); ok && n.Obj().Pkg() == sess.Obj().Pkg() && !st.Field(i).Embedded() {
+			if inner, ok := n.Underlying().(*types.Struct); ok {
+				structs = append(structs, inner)
+				holders = append(holders, st.Field(i))
+			}
+		}
+	}
+	for si, s := range structs {
+		var ms, rs, ints []*types.Var
+		for i := 0; i < s.NumFields(); i++ {
+			f := s.Field(i)
+			switch {
+			case isMsgSlice(f.Type()):
+				ms = append(ms, f)
+			case isBoolSlice(f.Type()):
+				rs = append(rs, f)
+			default:
+				if b, ok := f.Type().Underlying().(*types.Basic); ok && b.Kind() == types.Int {
+					ints = append(ints, f)
+				}
+			}
+		}
+		if len(ms) != 1 || len(rs) != 1 {
+			continue
+		}
+		msgs, retain, holder = ms[0], rs[0], holders[si]
+		// the count: an int field of the same record that some function sets to len(messages)
+		for _, f := range ints {
+			for _, fs := range eng.StoresToField(pkgFuncs(p, pop3Rel), f) {
+				if lx := eng.LenOf(fs.Store.Val); lx != nil && eng.SameField(eng.LoadedField(lx), msgs) {
+					count = f
+				}
+			}
+		}
+		return
+	}
+	return
 }
